@@ -311,11 +311,16 @@ def handleWith (a : Args) (shape bshape : List Nat) (bc : Array Int) : String :=
     let isMin := a.nat "min" == 1
     let nb := neighbours bshape bc
     let regular := starShapedB nb && symNbB shape.length nb
-    s!"model={showBools (regModelRaw isMin A bshape bc).toList} spec={showBools (regSpec isMin A nb).toList} loc={showBools ((allPos shape).map (locSpecAt isMin A nb))} regular={if regular then 1 else 0} fix={if regSpecFixed isMin A nb then 1 else 0}"
+    -- `big=1` (size-threshold cases): the fixed-point specification is quadratic and is left out
+    let big := a.nat "big" == 1
+    let specS := if big then "" else showBools (regSpec isMin A nb).toList
+    let fixS := if big || regSpecFixed isMin A nb then 1 else 0
+    s!"model={showBools (regModelRaw isMin A bshape bc).toList} spec={specS} loc={showBools ((allPos shape).map (locSpecAt isMin A nb))} regular={if regular then 1 else 0} fix={fixS}"
   | "holes" =>
     let nb := neighbours bshape bc
     let regular := symNbB shape.length nb
-    s!"model={showBools (closeHoles A nb).toList} spec={showBools (closeHolesSpec A nb).toList} regular={if regular then 1 else 0}"
+    let specS := if a.nat "big" == 1 then "" else showBools (closeHolesSpec A nb).toList
+    s!"model={showBools (closeHoles A nb).toList} spec={specS} regular={if regular then 1 else 0}"
   | "hitmiss" =>
     let es := hmEntries bshape bc
     s!"model={showInts ((allPos shape).map (hitmissAt A bshape es))} modelrev={showInts ((allPos shape).map (hitmissAt A bshape es.reverse))} spec={showInts ((allPos shape).map (hitmissSpecAt A bshape bc))} closed={showInts ((allPos shape).map (hitmissClosedAt A bshape bc))}"
